@@ -1597,7 +1597,9 @@ class CodedKern(Kern):
         :returns: New name made of original + tag + suffix
         :rtype: str
         '''
-        if original.endswith(suffix):
+        # Fortran names are case insensitive (and rename_and_write() strips
+        # a trailing "_mod" from the file name in the same way).
+        if original.lower().endswith(suffix.lower()):
             return original[:-len(suffix)] + tag + suffix
         return original + tag + suffix
 
